@@ -7,6 +7,30 @@ always a prefix of what was handed over, in order.
 -/
 namespace Xt.Cli
 
+/-- Whatever the descriptor does: a `flush` that returns `Ok` leaves xt's buffer empty. -/
+theorem writerFlush_ok_buf {fd : Fd} {o o' : Out} (h : Writer.flush fd o = (.returned (.ok ()), o')) :
+    o'.buf = [] := by
+  unfold Writer.flush bwFlush flushBuf at h
+  split at h
+  rename_i r o1 heq
+  split at heq
+  · rename_i e o2 h2
+    split at h2
+    · simp at h2
+    · simp at h2; injection heq with h3 h4; subst h3
+      simp [checkForBrokenPipe] at h
+      split at h <;> simp at h
+  · rename_i o2 h2
+    split at h2
+    · rename_i s rest hw
+      simp at h2; subst h2
+      split at heq
+      rename_i r2 s2 hfl
+      injection heq with h3 h4
+      injection h with h5 h6
+      subst h4; subst h6; rfl
+    · simp at h2
+
 /-- A file descriptor that accepts everything (a pipe with a reader that keeps
 reading, a regular file on a device with space). -/
 def GoodFd (fd : Fd) : Prop := ∀ i n, fd i n = .all
